@@ -225,7 +225,7 @@ theorem copyInstr_wf (P : NumPr) (st : MSt) (ins : Instr) (next : Option Kind) :
       rw [← h1]
       exact chunks_len di (by rw [h1]; exact arity_pos _ h3) _ _ h2
 
-theorem runInstrs_wf (P : NumPr) : ∀ (is : List Instr) (st : MSt), AllWfG (runInstrs P st is).2 := by
+theorem runInstrs_wf (P : NumPr) (final : Option Kind) : ∀ (is : List Instr) (st : MSt), AllWfG (runInstrs P final st is).2 := by
   intro is
   induction is with
   | nil => intro st g h; simp [runInstrs] at h
@@ -235,8 +235,8 @@ theorem runInstrs_wf (P : NumPr) : ∀ (is : List Instr) (st : MSt), AllWfG (run
     exact allWfG_append (copyInstr_wf P st i _) (ih _)
 
 /-- every group the model prints is structurally well-formed -/
-theorem groupsOfInstrs_wf (P : NumPr) (is : List Instr) : AllWfG (groupsOfInstrs P is) :=
-  runInstrs_wf P is {}
+theorem groupsOfInstrs_wf (P : NumPr) (is : List Instr) (final : Option Kind) : AllWfG (groupsOfInstrs P is final) :=
+  runInstrs_wf P final is {}
 
 /-! ## with a universal shape contract of the number printers every printed number is well-shaped -/
 
@@ -317,8 +317,8 @@ theorem copyInstr_good (P : NumPr) (hc : ∀ s, goodNum (P.cur s) = true) (ha : 
     · exact groupLoop_good P hc ha _ _ _ _ _ _ _
 
 theorem printed_good (P : NumPr) (hc : ∀ s, goodNum (P.cur s) = true) (ha : ∀ v, goodNum (P.alt v) = true)
-    (is : List Instr) : AllGood (groupsOfInstrs P is) := by
-  have : ∀ (is : List Instr) (st : MSt), AllGood (runInstrs P st is).2 := by
+    (is : List Instr) (final : Option Kind) : AllGood (groupsOfInstrs P is final) := by
+  have : ∀ (is : List Instr) (st : MSt), AllGood (runInstrs P final st is).2 := by
     intro is
     induction is with
     | nil => intro st g h; simp [runInstrs] at h
